@@ -296,3 +296,8 @@ package js_parser
 // panics on a mismatch. Decorator expressions that were parsed and are then DROPPED (the "@x export @y class" error
 // path) may have pushed scopes (arrow functions, classes); those must be discarded before parsing goes on.
 //@ guarded dropped-decorators-discard-their-scopes C16: func=(*parser).parseStmt ; in=js_parser ; site=call parseStmt ; only-under=true:opts.deferredDecorators!=nil ; scenario=dropped_decorator_scopes ; preceded-by-call=discardScopesUpTo
+
+// C14 ("object rest is lowered below ES2018 wherever it occurs"): findRestBindings RECORDS, for every sub-pattern, whether
+// it contains a rest binding, and the splitting pass reads that record. So the scan must visit every sibling: the loops
+// over array items and object properties are left only when they are exhausted.
+//@ guarded rest-binding-scan-visits-every-sibling C14: func=(*parser).lowerObjectRestHelper ; in=js_parser ; site=dyncall findRestBindings ; only-under=true:phi:rangeindex+1<call len(*) ; exhaustive-loop=1
